@@ -72,6 +72,23 @@ pub fn predicate(id: &str, v: &Violation) -> bool {
                 && sig_bool(v, "at_rest") == Some(true)
                 && sig_bool(v, "speed_target_zero") == Some(true)
         }
+        // A friction brake with a non-zero ramp-up time (the shipped default brake: 60 s; the builder gives 0 s)
+        // cannot come on instantly. The controller drives at the limit and asks for the whole holding force in
+        // one step (reaching the limit under power on a downgrade, or where the grade steepens); when that is more
+        // than dynamic braking plus one step of ramp, the train exceeds the limit by a hair and the next step trips
+        // the library's own assertion. Only with ramp-up > 0, only when the brake comes on from fully released, and
+        // never when the brake state had dropped to zero while the consist kept braking (that is a different bug).
+        "C03-ramping-friction-brake-cannot-hold-the-limit-at-once" => {
+            sig_f(v, "fric_ramp_up_s").map(|x| x > 0.0).unwrap_or(false)
+                && sig_bool(v, "fric_dropped_while_braking") == Some(false)
+                && ((v.monitor == "panic"
+                    && sig_s(v, "location").map(|l| l.starts_with("src/train/braking_point.rs")).unwrap_or(false)
+                    && sig_s(v, "message").map(|m| m.starts_with("Speed limit violated!")).unwrap_or(false))
+                    || (v.monitor == "limit_run"
+                        && v.clause == "speed <= limit in force"
+                        && sig_bool(v, "fric_ramp_limited_from_released") == Some(true)
+                        && sig_f(v, "overspeed_rel").map(|x| x > 0.0 && x < 2e-2).unwrap_or(false)))
+        }
         // The backward pass re-times a slower alternative branch to "the latest departure that still makes
         // the join", which can precede a departure at t ~ 0: negative scheduled times, only on nodes reached
         // through an alternate link, bounded below by minus the trip time.
